@@ -40,6 +40,8 @@ func c04(w *core.World, r *core.Report) {
 	ruleRecoverFrames(w, r)
 	r.Rule("R04.9", "every reply of a pipelined expanded entry is checked in the iteration that received it", 1)
 	ruleReplyErrorsChecked(w, r)
+	r.Rule("R04.10", "the bidirectional snapshot builders never answer 'nothing to replay' (or success) on a path that has seen an expansion, probe or capture error", 2)
+	ruleBuildersSurfaceErrors(w, r)
 	r.Rule("R03.6", "every replay path of an entry, the 'Bad data format' fallback included, hands the target's error up (shared with C03)", 3)
 	ruleExpiryPaths(w, r)
 	r.Rule("R20.9", "a RESTORE error is swallowed as 'key exists' only for the published BUSYKEY texts (shared with C20)", 2)
@@ -1143,4 +1145,34 @@ func loopRunsTimes(head *ssa.BasicBlock, isN func(ssa.Value) bool) bool {
 		return true
 	}
 	return false
+}
+
+
+// ---------------------------------------------------------------- R04.10 the bidirectional builders hand errors up
+
+// ruleBuildersSurfaceErrors: buildBisyncRdbReplayUnit / buildBisyncRdbGlobalUnit
+// answer (unit, skip, err). "skip" means the entry needs no replay; the worker
+// goes on and the full sync is recorded as complete. An object parser that
+// rejects a value before producing its first command yields (no commands, err):
+// testing "no commands → skip" before "err → fail" turns a corrupted value into a
+// silently missing key. On no path that has seen a non-nil error of a call may
+// the builder return a nil error.
+func ruleBuildersSurfaceErrors(w *core.World, r *core.Report) {
+	n := 0
+	for _, name := range []string{"(*syncer.RedisOutput).buildBisyncRdbReplayUnit", "(*syncer.RedisOutput).buildBisyncRdbGlobalUnit"} {
+		f := fn(w, r, name)
+		if f == nil {
+			continue
+		}
+		bad, pos, calls, okEnum := seenErrorsSurface(f, "the entry is skipped (or reported as replayed) although it could not be expanded, and the full sync is recorded as complete without it")
+		if !okEnum {
+			r.Undecided(shortName(name)+"/errors-surface", f.Pos(), "too many paths")
+			continue
+		}
+		n++
+		r.Check(bad == "" && calls > 0, shortName(name)+"/errors-surface", pos, "%s (calls with an error result on paths=%d)", bad, calls)
+	}
+	if n == 0 {
+		r.Fail("bisync-rdb-builders/errors-surface", token.NoPos, "no builder found")
+	}
 }
